@@ -96,10 +96,18 @@ class DecodeState:
             extracted_bytes = extracted_bytes[::-1]
 
         padding = (8 - (bit_length + self.cursor_bit_position) % 8) % 8
-        raw_value, = bitstruct.unpack_from(
-            f"{base_data_type.bitstruct_format_letter}{bit_length}",
-            extracted_bytes,
-            offset=padding)
+        if base_data_type.bitstruct_format_letter == "r" and bit_length % 8 != 0:
+            raise DecodeError(f"The size of byte fields and strings must be a multiple "
+                              f"of 8 bits (is: {bit_length})")
+        try:
+            raw_value, = bitstruct.unpack_from(
+                f"{base_data_type.bitstruct_format_letter}{bit_length}",
+                extracted_bytes,
+                offset=padding)
+        except NotImplementedError as e:
+            # e.g., the accelerated bitstruct backend does not
+            # support integers larger than 64 bits
+            raise DecodeError(f"Cannot extract an object of {bit_length} bits: {e}")
         internal_value: AtomicOdxType
 
         # Deal with raw byte fields, ...
